@@ -133,6 +133,18 @@ DecodesExactly(reg, id, bytes) == Dec(reg, id, bytes, 1, 4 * Len(reg) + 8) = Len
 \* e: projected syn::Expr; paths[id]: projected resolve_type_path(id); Root: projected generated module
 IsPhantomExpr(e) == e.k = "path" /\ e.path.lead /\ e.path.segs = <<"core", "marker", "PhantomData">>
 LitIs(e, lk, suffix) == e.k = "lit" /\ e.lk = lk /\ e.suffix = suffix
+\* `[e; n]` is an instance of an array type only if the element type is Copy: primitives other than str, and arrays, tuples
+\* and compact wrappers of such (generated items are not Copy unless the user derives it)
+RECURSIVE MayBeCopy(_, _, _)
+MayBeCopy(reg, id, fuel) ==
+  IF fuel = 0 \/ ~HasId(reg, id) THEN FALSE
+  ELSE LET d == Ty(reg, id).def IN
+       CASE d.k = "prim" -> d.p # "str"
+         [] d.k = "arr" -> MayBeCopy(reg, d.of, fuel - 1)
+         [] d.k = "tup" -> \A i \in DOMAIN d.elems : MayBeCopy(reg, d.elems[i], fuel - 1)
+         [] d.k = "compact" -> MayBeCopy(reg, d.of, fuel - 1)
+         [] OTHER -> FALSE
+
 RECURSIVE EConf(_, _, _, _, _, _, _)
 \* a field list written as { name: v, .. } / ( v, .. ) / nothing, optionally followed by the marker
 EFields(reg, S, Root, paths, fields, marker, argsOrFields, isNamed, fuel) ==
@@ -189,7 +201,7 @@ EConf(reg, S, Root, paths, id, e, fuel) ==
                          ECompositeAt(reg, S, Root, paths, t.lead, Append(t.segs, d.variants[v].name), d.variants[v].fields, FALSE, e, fuel - 1)
     [] d.k = "seq" -> e.k = "vec" /\ Len(e.elems) = 2 /\ \A i \in DOMAIN e.elems : EConf(reg, S, Root, paths, d.of, e.elems[i], fuel - 1)
     [] d.k = "arr" -> \/ (e.k = "array" /\ Len(e.elems) = d.len /\ \A i \in DOMAIN e.elems : EConf(reg, S, Root, paths, d.of, e.elems[i], fuel - 1))
-                      \/ (e.k = "repeat" /\ e.len = d.len /\ EConf(reg, S, Root, paths, d.of, e.e, fuel - 1))
+                      \/ (e.k = "repeat" /\ e.len = d.len /\ MayBeCopy(reg, d.of, fuel - 1) /\ EConf(reg, S, Root, paths, d.of, e.e, fuel - 1))
     [] d.k = "tup" -> e.k = "tuple" /\ Len(e.elems) = Len(d.elems) /\ \A i \in DOMAIN d.elems : EConf(reg, S, Root, paths, d.elems[i], e.elems[i], fuel - 1)
     [] d.k = "compact" -> EConf(reg, S, Root, paths, d.of, e, fuel - 1)
     [] d.k = "prim" ->
